@@ -4,7 +4,7 @@ CONSTANT Depth
 VARIABLES m, hist, done
 vars == <<m, hist, done>>
 RE(S) == RandomElement(S)
-RandOp == LET k == RE({"Store", "Store", "Store", "Load", "Load", "Remove", "List"})
+RandOp(n) == LET k == RE({"Store", "Store", "Store", "Load", "Load", "Remove", "List"})
               t == RE({"ni", "ni", "nc", "rc", "tk", "tk", "bad", "nil"})
               id == RE(Ids \cup Ids \cup {""})
           IN IF k = "Store" THEN [op |-> k, t |-> t, id |-> id, v |-> RE(Vals)]
@@ -12,7 +12,7 @@ RandOp == LET k == RE({"Store", "Store", "Store", "Load", "Load", "Remove", "Lis
              ELSE [op |-> k, t |-> t, id |-> id, v |-> Absent]
 Init == m = InitMap /\ hist = <<>> /\ done = FALSE
 Step == /\ Len(hist) < Depth
-        /\ \E o \in {RandOp} : m' = Apply(m, o).m /\ hist' = Append(hist, o) /\ done' = FALSE
+        /\ \E o \in {RandOp(Len(hist))} : m' = Apply(m, o).m /\ hist' = Append(hist, o) /\ done' = FALSE
 Emit == Len(hist) = Depth /\ ~done /\ PrintT(<<"BEH", ToJson(hist)>>) /\ done' = TRUE /\ UNCHANGED <<m, hist>>
 Next == Step \/ Emit
 Spec == Init /\ [][Next]_vars
